@@ -117,6 +117,12 @@ def check_criteria(case):
             p_imp = got_imp
             Wl, Wr = float(w[li].sum()), float(w[ri].sum())
             expected = Wnode / Wtot * (p_imp - Wr / Wnode * right - Wl / Wnode * left)
+            # the formula is a function of the three impurities it is GIVEN (a caller may pass rounded or hypothetical values)
+            for dl, dr in ((0.25, -0.125), (-left, -right)):
+                alt = T._test_criterion_impurity_improvement(crit, p_imp + 0.5, left + dl, right + dr)
+                exp_alt = Wnode / Wtot * ((p_imp + 0.5) - Wr / Wnode * (right + dr) - Wl / Wnode * (left + dl))
+                require(abs(alt - exp_alt) <= tol, "impurity_improvement:ignores-its-arguments",
+                        "[%d,%d,%d) with parent=%r left=%r right=%r: %r, formula %r" % (start, pos, end, p_imp + 0.5, left + dl, right + dr, alt, exp_alt), f3)
             got = T._test_criterion_impurity_improvement(crit, p_imp, left, right)
             require(abs(got - expected) <= tol, "impurity_improvement" + (":after-other-candidate" if case["candidates"] else ""),
                     "[%d,%d,%d): %r, expected %r (W_left=%r W_right=%r W_node=%r W_total=%r)" % (
